@@ -224,7 +224,8 @@ pub enum Op {
     VecPush { sel: u8, n: Sz },
     VecShrink { sel: u8 },
     StrNew { cap: u16 },
-    /// how: 0 push_str, 1 push(char) x n (n capped), 2 push_repeat ASCII, 3 push_repeat 2-byte char
+    /// how: 0 push_str, 1 push(char) x n (n capped), 2 push_repeat ASCII, 3 push_repeat 2-byte char,
+    /// 4 replace_range of a middle piece by n bytes
     StrPush { sel: u8, n: u16, how: u8 },
     ScratchOpen { conflict: bool },
     ScratchClose,
@@ -1033,7 +1034,9 @@ impl Exec {
                 .map(|b| if b % 16 == 0 { 'é' } else { char::from(b'a' + b % 26) })
                 .collect(),
             2 => "x".repeat(n),
-            _ => "é".repeat(n / 2),
+            3 => "é".repeat(n / 2),
+            // 4: replace_range of a middle piece by a (usually longer) text
+            _ => pattern(seed, len + 1, n).into_iter().map(|b| char::from(b'A' + b % 26)).collect(),
         };
         let m = text.len();
         // The string API aborts the process when the arena is full; callers only push
@@ -1055,7 +1058,21 @@ impl Exec {
                 }
             }
             2 => s.push_repeat('x', n),
-            _ => s.push_repeat('é', n / 2),
+            3 => s.push_repeat('é', n / 2),
+            _ => {
+                // character boundaries at about 1/3 and 1/2 of the current text
+                let bounds: Vec<usize> = shadow.char_indices().map(|(i, _)| i).chain(std::iter::once(shadow.len())).collect();
+                let a = bounds[bounds.len() / 3];
+                let b = bounds[bounds.len() / 2];
+                s.replace_range(a..b, &text);
+                self.observe_growth(bi, s.as_ptr() as usize, s.capacity())?;
+                shadow.replace_range(a..b, &text);
+                if s.as_bytes() != shadow.as_bytes() {
+                    return bad("grow-contents", format!("ArenaString contents differ after replace_range({a}..{b}) with {m} bytes on {len}"));
+                }
+                self.blocks[bi].owner = Owner::S(s, shadow);
+                return Ok(());
+            }
         }
         self.observe_growth(bi, s.as_ptr() as usize, s.capacity())?;
         shadow.push_str(&text);
@@ -1357,7 +1374,7 @@ fn op_strategy() -> impl Strategy<Value = Op> {
         10 => (any::<u8>(), sz_strategy()).prop_map(|(sel, n)| Op::VecPush { sel, n }),
         1 => any::<u8>().prop_map(|sel| Op::VecShrink { sel }),
         2 => prop_oneof![Just(0u16), 1u16..64, 0u16..10_000].prop_map(|cap| Op::StrNew { cap }),
-        6 => (any::<u8>(), prop_oneof![0u16..40, 0u16..6000], 0u8..4)
+        6 => (any::<u8>(), prop_oneof![0u16..40, 0u16..6000], 0u8..5)
             .prop_map(|(sel, n, how)| Op::StrPush { sel, n, how }),
         4 => any::<bool>().prop_map(|conflict| Op::ScratchOpen { conflict }),
         4 => Just(Op::ScratchClose),
